@@ -125,6 +125,7 @@ def main():
     global restrict_notes
     restrict_notes = []
     n_ob = n_dis = n_bounded_ob = n_bounded_dis = 0
+    excluded = 0
     per_unit = []
     for r in res:
         u = r["unit"]
@@ -150,16 +151,19 @@ def main():
                     callee = f[0].split(".")[0]
                     if callee in alias_complete(tu):
                         restrict_notes.append("%s: %s called with a __restrict operand aliasing the output (callee proved alias-complete)" % (u.label, callee))
-                        r["obligations"] -= 1
+                        excluded += 1
+                        per_unit[-1]["obligations"] -= 1
                         continue
                 k = match_known(kf, prop, u.label, f[0], f[2] if len(f) > 2 else "")
                 if k:
                     known_hits.append((k, u, f))
-                    r["obligations"] -= 1      # reported separately as a known finding, not as an open obligation
+                    excluded += 1              # reported separately as a known finding, not as an open obligation
+                    per_unit[-1]["obligations"] -= 1
                 else:
                     fresh.append(f)
             if fresh:
                 violations.append((r, fresh))
+    n_ob -= excluded     # call-site restrict notes / known findings are reported on their own lines, not as open obligations
     for (k, u, f) in known_hits:
         print("KNOWN-FINDING: property=%s %s [%s %s]" % (prop, k["what"], u.label, f[0]))
     rc = 0
